@@ -18,6 +18,13 @@
 // division by zero does not abort: it throws RatError, which is not a
 // BSplineException and is therefore logged by the harness as a foreign
 // exception (an event no contract explains).
+//
+// -DVERIF_RAT_SELFCHECK: a second archetype of the same arithmetic that is NOT
+// trivially copyable.  Every object remembers its own address (set by every
+// constructor, kept by assignment) and every operation first checks it, so an
+// object that was relocated or created bitwise (memcpy / memmove / memset /
+// realloc of scalars, reads of raw storage) raises RatError.  Stands for the
+// user types of C19 that own resources (multiprecision numbers).
 #ifndef VERIF_RAT_H
 #define VERIF_RAT_H
 
@@ -38,6 +45,14 @@ class Rat {
  private:
   I _n;
   I _d;
+#ifdef VERIF_RAT_SELFCHECK
+  const Rat *_self = this;
+  void chk() const {
+    if (_self != this) throw RatError("Rat: object relocated or created bitwise / not alive");
+  }
+#else
+  void chk() const {}
+#endif
 
   static I gcd(I a, I b) {
     if (a < 0) a = -a;
@@ -88,15 +103,35 @@ class Rat {
   // type a caller uses as an operator scalar); nothing else converts
   template <typename Int, std::enable_if_t<std::is_integral_v<Int> && !std::is_same_v<Int, bool>, int> = 0>
   explicit Rat(Int i) : _n(static_cast<I>(i)), _d(1) {}
+#ifdef VERIF_RAT_SELFCHECK
+  Rat(const Rat &o) : _n(o._n), _d(o._d), _self(this) { o.chk(); }
+  Rat &operator=(const Rat &o) {
+    o.chk();
+    chk();
+    _n = o._n;
+    _d = o._d;
+    return *this;
+  }
+  ~Rat() { _self = nullptr; }
+#else
   Rat(const Rat &) = default;
   Rat &operator=(const Rat &) = default;
+#endif
 
   // side door for the harness only
   static Rat make(long long n, long long d) { return Rat(n, d, Raw{}); }
-  I num() const { return _n; }
-  I den() const { return _d; }
+  I num() const {
+    chk();
+    return _n;
+  }
+  I den() const {
+    chk();
+    return _d;
+  }
 
   Rat &operator+=(const Rat &o) {
+    chk();
+    o.chk();
     const I g = gcd(_d, o._d);
     const I da = _d / g, db = o._d / g;
     _n = add(mul(_n, db), mul(o._n, da));
@@ -106,6 +141,8 @@ class Rat {
   }
   Rat &operator-=(const Rat &o) { return *this += (-o); }
   Rat &operator*=(const Rat &o) {
+    chk();
+    o.chk();
     const I g1 = gcd(_n, o._d), g2 = gcd(o._n, _d);
     const I n1 = g1 ? _n / g1 : _n, d2 = g1 ? o._d / g1 : o._d;
     const I n2 = g2 ? o._n / g2 : o._n, d1 = g2 ? _d / g2 : _d;
@@ -115,6 +152,8 @@ class Rat {
     return *this;
   }
   Rat &operator/=(const Rat &o) {
+    chk();
+    o.chk();
     if (o._n == 0) throw RatError("Rat division by zero");
     Rat inv(o._d, o._n, Raw{});
     return *this *= inv;
@@ -130,11 +169,15 @@ class Rat {
   friend Rat operator/(Rat a, const Rat &b) { return a /= b; }
 
   friend bool operator==(const Rat &a, const Rat &b) {
+    a.chk();
+    b.chk();
     return a._n == b._n && a._d == b._d;
   }
   friend bool operator!=(const Rat &a, const Rat &b) { return !(a == b); }
   friend bool operator<(const Rat &a, const Rat &b) {
     // compare a.n*b.d with b.n*a.d
+    a.chk();
+    b.chk();
     return mul(a._n, b._d) < mul(b._n, a._d);
   }
   friend bool operator>(const Rat &a, const Rat &b) { return b < a; }
